@@ -303,6 +303,61 @@ Fixpoint run_ok (ops : list (N * qop)) (sns : list snap) (refs : list (res rv * 
   | _, _, _ => False
   end.
 
+(* ============== both kinds in one Subery ==============
+   Subery.reopen opens two named sub-dbs: drqs = DomIoSuber(subkey "drqs.") for Durq and
+   dsqs = DomIoSetSuber(subkey "dsqs.") for Dusq.  The environment maps a sub-db name to its
+   store; a queue of kind kd at key q lives in the store named [subkey_of kd], so the durable
+   side is keyed by (kind, key): a Durq and a Dusq may sit at the same key. *)
+Definition drqs_key : bytes := [100; 114; 113; 115; 46]%N.   (* "drqs." *)
+Definition dsqs_key : bytes := [100; 115; 113; 115; 46]%N.   (* "dsqs." *)
+Definition subkey_of (kd : bool) : bytes := if kd then dsqs_key else drqs_key.
+
+Section Mixed.
+  Variable pyeq : val -> val -> bool.
+  Variable S : Type.
+  Variable st_step : bool -> S -> IoSub.op -> N -> S * res rv.
+  Variable sview : S -> N -> list bytes.
+
+  Definition menv := bytes -> S.
+  Definition mqueues := bool -> N -> queue.
+  Definition mqupd (qs : mqueues) (kd : bool) (q : N) (st : queue) : mqueues :=
+    fun kd' q' => if Bool.eqb kd' kd && N.eqb q' q then st else qs kd' q'.
+
+  Definition mstep (kd : bool) (q : N) (E : menv) (st : queue) (o : qop) : menv * queue * res rv :=
+    let '(s', st', r) := gstep pyeq S st_step sview kd q (E (subkey_of kd)) st o in
+    (upd bytes_eqb E (subkey_of kd) s', st', r).
+
+  Fixpoint mrun (E : menv) (qs : mqueues) (ops : list (bool * N * qop)) : list snap :=
+    match ops with
+    | [] => []
+    | (kd, q, o) :: ops' =>
+      let '(E', st', r) := mstep kd q E (qs kd q) o in
+      {| sn_res := r; sn_mem := mem st'; sn_store := sview (E' (subkey_of kd)) q |}
+        :: mrun E' (mqupd qs kd q st') ops'
+    end.
+
+  (* reference: one independent FIFO queue / ordered set per (kind, key) *)
+  Fixpoint mref_run (ls : bool -> N -> list val) (ops : list (bool * N * qop)) : list (res rv * list val) :=
+    match ops with
+    | [] => []
+    | (kd, q, o) :: ops' =>
+      let (l', r) := ref_step pyeq kd (ls kd q) o in
+      (r, l') :: mref_run (fun kd' q' => if Bool.eqb kd' kd && N.eqb q' q then l' else ls kd' q') ops'
+    end.
+End Mixed.
+
+Fixpoint mrun_ok (ops : list (bool * N * qop)) (sns : list snap) (refs : list (res rv * list bytes)) : Prop :=
+  match ops, sns, refs with
+  | [], [], [] => True
+  | (_, _, o) :: ops', sn :: sns', (r, l) :: refs' =>
+    sn_mem sn = l /\ sn_store sn = l /\ (res_specified o = true -> sn_res sn = r) /\
+    mrun_ok ops' sns' refs'
+  | _, _, _ => False
+  end.
+
+Definition mqueues0 : mqueues := fun _ _ => fresh [].
+Definition menv0 : menv store := fun _ => store0.
+
 (* ============== correspondence ============== *)
 (* Python equality is supplied by the harness as a table value -> class id
    (computed by comparing the real objects with ==). *)
@@ -318,9 +373,8 @@ Definition pyeq_of (tbl : list (bytes * N)) (a b : bytes) : bool :=
   end.
 
 Record case := { c_names : list bytes;                (* Hold key of queue 0, 1, ... *)
-                 c_set : bool;                       (* false: Durq, true: Dusq *)
                  c_eq : list (bytes * N);
-                 c_ops : list (N * qop);
+                 c_ops : list (bool * N * qop);      (* kind (false: Durq, true: Dusq), queue, op *)
                  c_obs : list snap }.                (* result, list(q), sdb content after every op *)
 
 Definition snap_eqb (a b : snap) : bool :=
@@ -332,9 +386,10 @@ Definition snap_eqb (a b : snap) : bool :=
    the LMDB-level model of the sub-db *)
 Definition check_case (c : case) : bool :=
   list_eqb snap_eqb
-    (qrun (pyeq_of (c_eq c)) (c_set c) store0 queues0 (c_ops c)) (c_obs c) &&
+    (mrun (pyeq_of (c_eq c)) store spec_sstep spec_view menv0 mqueues0 (c_ops c)) (c_obs c) &&
   list_eqb snap_eqb
-    (drun (pyeq_of (c_eq c)) (fun q => nth (N.to_nat q) (c_names c) []) (c_set c) [] queues0 (c_ops c))
+    (mrun (pyeq_of (c_eq c)) dbb (db_sstep (fun q => nth (N.to_nat q) (c_names c) []))
+          (db_view (fun q => nth (N.to_nat q) (c_names c) [])) (fun _ => @nil (bytes * bytes)) mqueues0 (c_ops c))
     (c_obs c).
 
 Definition qop_index (o : qop) : nat :=
@@ -345,5 +400,5 @@ Definition qop_index (o : qop) : nat :=
   end.
 Definition n_branches : nat := 90.
 Definition case_branches (c : case) : list nat :=
-  map (fun p => ((if c_set c then 45 else 0) + qop_index (snd (fst p)) * 3 + outcome (sn_res (snd p)))%nat)
-      (combine (c_ops c) (qrun (pyeq_of (c_eq c)) (c_set c) store0 queues0 (c_ops c))).
+  map (fun p : (bool * N * qop) * snap => ((if fst (fst (fst p)) then 45 else 0) + qop_index (snd (fst p)) * 3 + outcome (sn_res (snd p)))%nat)
+      (combine (c_ops c) (mrun (pyeq_of (c_eq c)) store spec_sstep spec_view menv0 mqueues0 (c_ops c))).
